@@ -1,6 +1,6 @@
 (* C16 — property theorems only. Each is closed by [exact] of a lemma of Proofs_*.v. *)
 From Coq Require Import List ZArith QArith Qround Qabs Bool Permutation.
-From Gst Require Import lib.QAux C16.Model C16.Spec C16.Proofs C16.Proofs_pigeon.
+From Gst Require Import lib.QAux C16.Model C16.Spec C16.Migrate C16.Proofs C16.Proofs_pigeon.
 Import ListNotations.
 Local Open Scope Q_scope.
 
@@ -233,6 +233,178 @@ Print Assumptions C16_query_history_independent.
 Theorem C16_session_answers : forall g qs st, run_session g st qs = map (eval_query g) qs.
 Proof. exact run_session_map. Qed.
 Print Assumptions C16_session_answers.
+
+(* sessions with the mutating API (setX0 / setDX / setNX / setRotation... / resetFromVector): whatever was asked or
+   changed before, the queries that follow are answered as a fresh object with the geometry reached would answer them
+   (cached rotation matrices and scratch vectors of the implementation have to be refreshed accordingly) *)
+Theorem C16_mutation_refresh : forall g pre qs,
+  run_msession g (pre ++ map SQ qs) = run_msession g pre ++ map (fun q => Some (eval_query (final_grid g pre) q)) qs.
+Proof. exact msession_refresh. Qed.
+Print Assumptions C16_mutation_refresh.
+
+(* ------------------------------------------------------------------ migration bookkeeping (CalcMigrate) *)
+(* a located sample is active, its rank is that of the cell whose inequalities it satisfies (in the convention
+   `centered' of the call site) and that cell is inside the grid *)
+Theorem C16_migrate_locate : forall n g centered eps p r, wfgrid n g -> length (p_coor p) = n ->
+  locate_gen centered eps g p = Some r ->
+  p_active p = true /\
+  let idx := snd (c2i g (p_coor p) centered eps) in
+  inrange (g_nx g) idx /\ r = rank_of (g_nx g) idx /\ (0 <= r < prodZ (g_nx g))%Z /\
+  forall k, (k < n)%nat -> in_cell_axis centered eps (nth k (grid_frame g (p_coor p)) 0) (nth k (g_dx g) 1) (nth k idx 0%Z).
+Proof. exact locate_some. Qed.
+Print Assumptions C16_migrate_locate.
+(* an active sample that is not located lies in no cell of the grid *)
+Theorem C16_migrate_locate_outside : forall n g centered eps p, wfgrid n g -> length (p_coor p) = n -> p_active p = true ->
+  locate_gen centered eps g p = None -> ~ inrange (g_nx g) (snd (c2i g (p_coor p) centered eps)).
+Proof. exact locate_none. Qed.
+Print Assumptions C16_migrate_locate_outside.
+(* grid -> point without dmax: the value of the node of the cell where the sample is located *)
+Theorem C16_migrate_grid_to_point : forall centered eps g vals dt p,
+  g2p_one_gen centered eps g vals dt [] p = match locate_gen centered eps g p with Some r => getv vals r | None => None end.
+Proof. exact g2p_no_dmax. Qed.
+Print Assumptions C16_migrate_grid_to_point.
+(* point -> grid without dmax: the sample kept for a node is the "closest, first on equal distances" among the valued
+   samples located in its cell ... *)
+Theorem C16_migrate_point_to_grid : forall centered eps g dt pts node,
+  p2g_holder_gen centered eps g dt [] pts node =
+  fold_left (closer g node) (filter (p2g_cand centered eps g node) (indexed 0 pts)) None.
+Proof. exact p2g_no_dmax. Qed.
+Print Assumptions C16_migrate_point_to_grid.
+(* ... where "closest, first on equal distances" means: strictly closer than every earlier candidate, at least as close as
+   every later one; nothing is kept only when there is no candidate *)
+Theorem C16_closest_wins : forall g node l,
+  match fold_left (closer g node) l None with
+  | None => l = []
+  | Some ip => exists l1 l2, l = l1 ++ ip :: l2 /\
+      (forall jq, In jq l1 -> dist2 g node (p_coor (snd ip)) < dist2 g node (p_coor (snd jq))) /\
+      (forall jq, In jq l2 -> dist2 g node (p_coor (snd ip)) <= dist2 g node (p_coor (snd jq)))
+  end.
+Proof. exact closer_fold_spec. Qed.
+Print Assumptions C16_closest_wins.
+(* grid -> grid with filling between a grid and its coarsened child (what createCoarse does with the variables): node j of
+   the child reads parent node j*m + (m-1)/2 (cell matching; integer division: the centre of the m parent nodes, the lower
+   central one when m is even) resp. j*m (point matching) — any dimension, rotation, nmult; consistent with C16_coarse_nodes *)
+Theorem C16_coarse_reads : forall n g nmult flagCell j eps,
+  wfgrid n g -> length nmult = n -> length j = n -> (0 < n)%nat -> Forall (fun m => (0 < m)%Z) nmult ->
+  0 <= eps -> eps < 1 # 2 ->
+  snd (c2i g (node (derived g (multiple g nmult flagCell)) j) false eps) =
+  map2 (fun jj m => (jj * m + (if flagCell then (m - 1) / 2 else 0))%Z) j nmult.
+Proof. exact coarse_reads. Qed.
+Print Assumptions C16_coarse_reads.
+
+(* the repaired code follows the documented rule (cells centred on the nodes, dmax as a limit on the sample kept):
+   grid -> point, point -> grid and grid -> grid with filling, dmax included, whatever eps *)
+Theorem C16_migrate_grid_to_point_rule : forall eps g vals dt dmax p,
+  g2p_one_gen true eps g vals dt dmax p = spec_g2p_one_eps eps g vals dt dmax p.
+Proof. exact g2p_is_spec. Qed.
+Print Assumptions C16_migrate_grid_to_point_rule.
+Theorem C16_migrate_point_to_grid_rule : forall eps g dt dmax pts node,
+  p2g_holder_gen true eps g dt dmax pts node = spec_p2g_holder_eps eps g dt dmax pts node.
+Proof. exact p2g_is_spec. Qed.
+Print Assumptions C16_migrate_point_to_grid_rule.
+Theorem C16_migrate_grid_to_grid_rule : forall eps gin vals gout dt dmax j,
+  g2g_fill_one_gen true eps gin vals gout dt dmax j = spec_g2g_fill_one_eps eps gin vals gout dt dmax j.
+Proof. exact g2g_fill_is_spec. Qed.
+Print Assumptions C16_migrate_grid_to_grid_rule.
+(* the model uses that convention *)
+Theorem C16_migrate_centered : loc_centered = true.
+Proof. reflexivity. Qed.
+Print Assumptions C16_migrate_centered.
+(* refined child (cell matching): node j reads parent node j div m, the parent cell containing the fine cell —
+   any dimension, rotation, nmult; consistent with C16_refine_nodes (eps < 1/(2m) on every axis) *)
+Theorem C16_refine_reads : forall n g nmult j eps,
+  wfgrid n g -> length nmult = n -> length j = n -> (0 < n)%nat -> Forall (fun m => (0 < m)%Z) nmult ->
+  0 <= eps -> Forall (fun m => eps * (2 * inject_Z m) < 1) nmult ->
+  snd (c2i g (node (derived g (divider g nmult true)) j) true eps) = map2 (fun jj m => (jj / m)%Z) j nmult.
+Proof. exact refine_reads. Qed.
+Print Assumptions C16_refine_reads.
+
+(* regression: the definitions of the code before its repair (names ending in _old, corner convention) do NOT follow the rule; the check
+   uses them to give a reverted fix its former key *)
+Definition g_unit43 : grid := {| g_nx := [4%Z; 3%Z]; g_x0 := [0; 0]; g_dx := [1; 1]; g_rot := rot_identity 2 |}.
+Definition vals43 : list (option Q) := map (fun r => Some (inject_Z (1000 + r))) (ranks g_unit43).
+Theorem C16_migrate_lower_corner_old_refuted : exists g vals eps p,
+  g2p_one_gen false eps g vals 1 [] p <> spec_g2p_one g vals 1 [] p /\ g2p_one_gen loc_centered eps g vals 1 [] p = spec_g2p_one g vals 1 [] p.
+Proof.
+  exists g_unit43, vals43, (1 # 1000000), {| p_active := true; p_coor := [7 # 8; 7 # 8]; p_val := None |}.
+  vm_compute. split; [discriminate|reflexivity].
+Qed.
+Print Assumptions C16_migrate_lower_corner_old_refuted.
+Theorem C16_migrate_refine_old_refuted : exists g vals nmult eps,
+  let child := derived g (divider g nmult true) in
+  g2g_fill_one_gen false eps g vals child 1 [] 0 = None /\ g2g_fill_one_gen loc_centered eps g vals child 1 [] 0 = Some 1000.
+Proof.
+  exists g_unit43, vals43, [2%Z; 2%Z], (1 # 1000000). vm_compute. split; reflexivity.
+Qed.
+Print Assumptions C16_migrate_refine_old_refuted.
+Theorem C16_migrate_g2p_dmax_old_refuted : exists g vals eps dmax p r,
+  g2p_one_old false eps g vals 1 dmax p = Some (inject_Z r) /\ spec_g2p_one g vals 1 dmax p = None /\
+  g2p_one_gen loc_centered eps g vals 1 dmax p = None.
+Proof.
+  exists g_unit43, vals43, (1 # 1000000), [3 # 10; 3 # 10], {| p_active := true; p_coor := [16 # 10; 16 # 10]; p_val := None |}, 5%Z.
+  vm_compute. repeat split; reflexivity.
+Qed.
+Print Assumptions C16_migrate_g2p_dmax_old_refuted.
+Theorem C16_migrate_p2g_dmax_old_refuted : exists g eps dmax pts node,
+  p2g_node_old false eps g 1 dmax pts node = Some 100 /\ spec_p2g_node g 1 dmax pts node = Some 200 /\
+  p2g_node eps g 1 dmax pts node = Some 200.
+Proof.
+  exists g_unit43, (1 # 1000000), [2 # 5; 2 # 5],
+    [ {| p_active := true; p_coor := [29 # 20; 1]; p_val := Some 100 |}; {| p_active := true; p_coor := [11 # 10; 1]; p_val := Some 200 |} ], 5%Z.
+  vm_compute. repeat split; reflexivity.
+Qed.
+Print Assumptions C16_migrate_p2g_dmax_old_refuted.
+
+(* interpolated grid -> point migration: the multilinear weights of the 2^n surrounding nodes add up to 1 *)
+Theorem C16_interp_weights : forall prop, sum_weights prop (corners (length prop)) == 1.
+Proof. exact corner_weights_sum. Qed.
+Print Assumptions C16_interp_weights.
+(* multilinear interpolation reproduces the affine functions of the grid coordinates exactly: if the 2^n nodes around
+   the point carry a0 + sum a_k i_k, the weighted sum is a0 + sum a_k (i_k + prop_k) — the affine function at the
+   fractional grid position of the point ... *)
+Theorem C16_interp_affine : forall prop idx a a0, length idx = length prop -> length a = length prop ->
+  interp_sum prop idx (fun ind => affine a0 a (map inject_Z ind)) ==
+  affine a0 a (map2 (fun i p => inject_Z i + p) idx prop).
+Proof. exact interp_affine. Qed.
+Print Assumptions C16_interp_affine.
+(* ... and so does the value computed by the code's combination step when no corner is skipped (threshold 0) *)
+Theorem C16_interp_combine_affine : forall g vals idx prop a a0,
+  length idx = length prop -> length a = length prop ->
+  (forall c, corner_value g vals idx c = Some (affine a0 a (map inject_Z (corner_index idx c)))) ->
+  exists q, interp_combine g vals 0 idx prop = Some q /\ q == affine a0 a (map2 (fun i p => inject_Z i + p) idx prop).
+Proof. exact interp_combine_affine. Qed.
+Print Assumptions C16_interp_combine_affine.
+Definition g_unit43_rot90 : grid := {| g_nx := [4%Z; 3%Z]; g_x0 := [0; 0]; g_dx := [1; 1]; g_rot := rot_of_matrix 2 [[0; -(1)]; [1; 0]] |}.
+Example C16_nonvacuous_interp :
+  interp_one (1 # 1000000) g_unit43 vals43 1 [] [5 # 4; 1 # 2] = spec_interp_one (1 # 1000000) g_unit43 vals43 [5 # 4; 1 # 2] /\
+  (match interp_one (1 # 1000000) g_unit43 vals43 1 [] [5 # 4; 1 # 2] with Some v => Qeq_bool v (4013 # 4) | None => false end) = true /\
+  (match interp_one (1 # 1000000) g_unit43 vals43 1 [] [2; 1] with Some v => Qeq_bool v 1006 | None => false end) = true /\
+  interp_one (1 # 1000000) g_unit43 vals43 1 [] [7 # 2; 1] = None /\
+  (* rotated grid (90 degrees), point at grid position (1.25, 0.375): 1001 + 0.25 + 4 * 0.375 = 1002.75, values 1000 + i + 4 j being affine *)
+  (match interp_one (1 # 1000000) g_unit43_rot90 vals43 1 [] [-3 # 8; 5 # 4] with Some v => Qeq_bool v (4011 # 4) | None => false end) = true /\
+  (match spec_interp_one (1 # 1000000) g_unit43_rot90 vals43 [-3 # 8; 5 # 4] with Some v => Qeq_bool v (4011 # 4) | None => false end) = true.
+Proof. vm_compute. repeat split; reflexivity. Qed.
+(* regression: with the offsets taken along the world axes (the code before 7df99cde0) the same point receives 1001.625 *)
+Theorem C16_interp_rotated_old_refuted : exists g vals eps p,
+  (match interp_one_old eps g vals 1 [] p with Some v => Qeq_bool v (8013 # 8) | None => false end) = true /\
+  (match spec_interp_one eps g vals p with Some v => Qeq_bool v (4011 # 4) | None => false end) = true.
+Proof. exists g_unit43_rot90, vals43, (1 # 1000000), [-3 # 8; 5 # 4]. vm_compute. split; reflexivity. Qed.
+Print Assumptions C16_interp_rotated_old_refuted.
+
+Example C16_nonvacuous_migrate :
+  let pts := [ {| p_active := true; p_coor := [12 # 10; 11 # 10]; p_val := Some 7 |};
+               {| p_active := true; p_coor := [11 # 10; 1]; p_val := Some 8 |};
+               {| p_active := false; p_coor := [1; 1]; p_val := Some 9 |};
+               {| p_active := true; p_coor := [9; 9]; p_val := Some 1 |};
+               {| p_active := true; p_coor := [7 # 8; 7 # 8]; p_val := Some 3 |} ] in
+  map (locate (1 # 1000000) g_unit43) pts = [Some 5%Z; Some 5%Z; None; None; Some 5%Z] /\
+  p2g_node (1 # 1000000) g_unit43 1 [] pts 5 = Some 8 /\ p2g_node (1 # 1000000) g_unit43 1 [] pts 0 = None /\
+  p2g_node (1 # 1000000) g_unit43 1 [1 # 20; 1 # 20] pts 5 = None /\
+  g2p (1 # 1000000) g_unit43 vals43 1 [] pts = [Some 1005; Some 1005; None; None; Some 1005] /\
+  g2p (1 # 1000000) g_unit43 vals43 1 [1 # 10; 1 # 10] pts = [None; Some 1005; None; None; None] /\
+  snd (c2i g_unit43 (node (derived g_unit43 (multiple g_unit43 [2%Z; 3%Z] true)) [1%Z; 0%Z]) false (1 # 1000000)) = [2%Z; 1%Z] /\
+  snd (c2i g_unit43 (node (derived g_unit43 (divider g_unit43 [2%Z; 2%Z] true)) [3%Z; 0%Z]) true (1 # 1000000)) = [1%Z; 0%Z].
+Proof. vm_compute. repeat split; reflexivity. Qed.
 
 (* the boolean orthogonality test used by the examples is sound *)
 Theorem C16_orthogonal_test : forall n M, orthogonal_b n M = true -> orthogonal n M.
